@@ -33,6 +33,11 @@ def match_known(prop, v, known):
         if f.get("status") != "known" or f.get("property") != prop:
             continue
         if f.get("function") == v["region"] and (f.get("obligation") in (None, "*", msg_kind(v["msg"]))):
+            # a finding is identified by the function, the kind of obligation and the text of the failed clause, so
+            # that any other failed clause of the same function is still reported
+            cc = f.get("clause_contains")
+            if cc and cc.replace(" ", "") not in (v.get("detail") or "").replace(" ", ""):
+                continue
             return f
     return None
 
@@ -209,8 +214,14 @@ def finish(prop, tier, seed, results, wall, known, no_evidence=False):
         json.dump(ev, open(os.path.join(ROOT, "evidence", prop + ".json"), "w"), indent=1, ensure_ascii=False)
 
     # --- verdict ---
+    seen_known = set()
     for k, v in known_hits:
-        print("KNOWN-FINDING: property=%s %s [%s: %s]" % (prop, k.get("what", ""), v["region"], v["msg"]))
+        key = (k.get("function"), k.get("clause_contains"), k.get("what"))
+        if key in seen_known:
+            continue
+        seen_known.add(key)
+        print("KNOWN-FINDING: property=%s %s [%s: %s, %d failing exit(s)]" % (
+            prop, k.get("what", ""), v["region"], v["msg"], sum(1 for kk, _ in known_hits if kk is k)))
     print("%s tier=%s units=%s obligations=%d discharged=%d violations=%d undecided=%d wall=%.1fs" % (
         prop, tier, ",".join(sorted(results)), obligations, discharged, len(violations), len(undecided), wall))
     if violations:
